@@ -125,16 +125,45 @@ func sweepOps() []op {
 			op{Kind: "hostile", Var: "aout-overflow", W: "W0", Tok: "coin", Ring: ring, To: "C", Amt: "10c", Fee: "min"},
 		)
 	}
-	for _, v := range []string{"ain-deflated", "ain-deflated-recommit", "ain-overflow"} {
+	o = append(o, hostileAin()...)
+	return o
+}
+
+func hostileAin() []op {
+	var o []op
+	for _, v := range []string{"ain-deflated", "ain-deflated-recommit", "ain-overflow", "ain-fee-uncommitted"} {
 		o = append(o, op{Kind: "hostile", Var: v, From: "B", Tok: "coin", Dests: []dest{{"W1", 0, "50c"}}, Fee: "min"})
 	}
 	return o
 }
 
-func histAcct() []op {
+// genesisOps: what needs no prepared state (no contract, no hidden output): run on the raw genesis state BEFORE the base
+// state is built, so that a tree on which the setup itself cannot run still gets its hostile account inputs judged.
+func genesisOps() []op {
+	o := []op{
+		{Kind: "xfer", From: "A", To: "B", Amt: "1c"},
+		{Kind: "ain", From: "B", Tok: "coin", Dests: []dest{{"W1", 0, "50c"}}, Fee: "min"},
+		{Kind: "ain", From: "B", Tok: "coin", Dests: []dest{{"W1", 1, "20c"}, {"W2", 2, "unit"}}, Fee: "min+price"},
+		{Kind: "ain", From: "B", Tok: "coin", Dests: []dest{{"W1", 0, "unit+1"}}, Fee: "min"},
+		{Kind: "ain", From: "B", Tok: "coin", Dests: []dest{{"W1", 0, "50c"}}, Fee: "min+unit"},
+	}
+	return append(o, hostileAin()...)
+}
+
+func histAcct(quick bool) []op {
+	o := histAcctCore()
+	if !quick {
+		o = append(o,
+			op{Kind: "xfer", From: "C", To: "D", Amt: "all"},
+			op{Kind: "xfer", From: "B", To: "Y:vault", Amt: "1c"}, // a plain transfer to what became a contract in this block
+		)
+	}
+	return o
+}
+
+func histAcctCore() []op {
 	return []op{
 		{Kind: "xfer", From: "A", To: "B", Amt: "1c"},
-		{Kind: "xfer", From: "C", To: "D", Amt: "all"},
 		{Kind: "tokxfer", From: "B", To: "X:vault", Tok: "gen", Amt: "3c"},
 		{Kind: "create", From: "A", Code: "vault", Amt: "2c"},
 		{Kind: "call", From: "C", To: "reverter", Amt: "3c"},
@@ -142,7 +171,6 @@ func histAcct() []op {
 		{Kind: "call", From: "B", To: "vault-destruct:D", Amt: "1c"},
 		{Kind: "call", From: "B", To: "vault-destruct:self", Amt: "1c"},
 		{Kind: "call", From: "B", To: "issuer-issue", Amt: "0", Arg: "250c"},
-		{Kind: "xfer", From: "B", To: "Y:vault", Amt: "1c"}, // a plain transfer to what became a contract in this block
 	}
 }
 
@@ -253,13 +281,37 @@ func longFamilies() []named {
 	}
 }
 
+// histAll: <= 2 blocks x <= 2 txs over one op of (almost) every kind: the cross-kind interactions (thorough tier).
+func histAll() []op {
+	return []op{
+		{Kind: "xfer", From: "A", To: "B", Amt: "1c"},
+		{Kind: "tokxfer", From: "B", To: "X:vault", Tok: "gen", Amt: "3c"},
+		{Kind: "create", From: "A", Code: "vault", Amt: "2c"},
+		{Kind: "call", From: "C", To: "vault-deposit", Amt: "3c"},
+		{Kind: "call", From: "B", To: "vault-destruct:D", Amt: "1c"},
+		{Kind: "call", From: "C", To: "vault-destruct:self", Amt: "0"},
+		{Kind: "call", From: "B", To: "issuer-issue", Amt: "0", Arg: "250c"},
+		{Kind: "call", From: "C", To: "reverter", Amt: "3c"},
+		{Kind: "ain", From: "B", Tok: "coin", Dests: []dest{{"W1", 0, "80c"}}, Fee: "min"},
+		{Kind: "ain", From: "A", Tok: "iss", Dests: []dest{{"W2", 0, "10c"}}, Fee: "min"},
+		{Kind: "uspend", W: "W0", Tok: "coin", Ring: 1, To: "W1.1", Amt: "10c", Fee: "min"},
+		{Kind: "uspend", W: "W0", Tok: "coin", Ring: 3, To: "C", Amt: "all", Fee: "min"},
+		{Kind: "uspend", W: "W0", Tok: "iss", From: "B", Ring: 3, To: "C", Amt: "all", Fee: "min"},
+		{Kind: "uspend", W: "W1", Tok: "coin", Ring: 3, To: "Y:vault", Amt: "10c", Fee: "min"},
+		{Kind: "lie", W: "W0", Tok: "coin", Ring: 3, To: "W2.0", Arg: "1000c"},
+		{Kind: "hostile", Var: "fee-uncommitted", W: "W1", Tok: "coin", Ring: 3, To: "W2.0"},
+	}
+}
+
 func families(quick bool) map[string]*family {
 	m := map[string]*family{}
 	addf := func(f *family) { m[f.Name] = f }
+	addf(&family{Name: "genesis-flat", Trie: false, Genesis: true, Ops: genesisOps(), MaxTx: 1, Depth: 1, Tampers: true, TamperDepth: 1})
+	addf(&family{Name: "genesis-trie", Trie: true, Genesis: true, Ops: genesisOps(), MaxTx: 1, Depth: 1, Tampers: true, TamperDepth: 1})
 	sw := sweepOps()
 	addf(&family{Name: "sweep-flat", Trie: false, Ops: sw, MaxTx: 1, Depth: 1, Tampers: true, TamperDepth: 1})
 	addf(&family{Name: "sweep-trie", Trie: true, Ops: sw, MaxTx: 1, Depth: 1, Tampers: true, TamperDepth: 1})
-	hs := []named{{"hist-acct", histAcct(), false}, {"hist-conf", histConf(), true}, {"hist-token", histToken(), false}, {"hist-mixed", histMixed(), true}}
+	hs := []named{{"hist-acct", histAcct(quick), false}, {"hist-conf", histConf(), true}, {"hist-token", histToken(), false}, {"hist-mixed", histMixed(), true}}
 	for _, x := range hs {
 		if quick {
 			addf(&family{Name: x.name, Trie: x.trie, Ops: x.ops, MaxTx: 2, Depth: 2, Tampers: true, TamperDepth: 2})
@@ -274,6 +326,8 @@ func families(quick bool) map[string]*family {
 		}
 	}
 	if !quick {
+		addf(&family{Name: "hist-all-flat", Trie: false, Ops: histAll(), MaxTx: 2, Depth: 2, Tampers: true, TamperDepth: 1, Budget: 8 * time.Minute})
+		addf(&family{Name: "hist-all-trie", Trie: true, Ops: histAll(), MaxTx: 2, Depth: 2, Tampers: true, TamperDepth: 1, Budget: 8 * time.Minute})
 		for _, x := range deepFamilies() {
 			addf(&family{Name: x.name, Trie: x.trie, Ops: x.ops, MaxTx: 3, Depth: 3, Tampers: true, TamperDepth: 1, Budget: 7 * time.Minute})
 		}
@@ -296,7 +350,7 @@ func familyOrder(quick bool) []string {
 	for _, x := range deepFamilies() {
 		o = append(o, x.name)
 	}
-	return o
+	return append(o, "hist-all-flat", "hist-all-trie")
 }
 
 // probe: debugging aid — one block on the flat base state.
@@ -315,7 +369,7 @@ func probe(spec string) {
 		b := base(false)
 		fmt.Println("base:", b.snap.key)
 		fmt.Println("setup violations:", b.viol)
-		w, err := b.snap.restore()
+		w, err := b.snap.restore("cand")
 		if err != nil {
 			fmt.Println(err)
 			return
